@@ -102,8 +102,9 @@ func coseContentReqs(t coseTerms) []treq {
 		return AG("+Empty(mapdel(map[*" + h + "=>{struct{}}*], old(re(" + t.crit + "#0))))")
 	}
 	tagOK := func(l string) []LP {
-		raw := "(*github.com/fxamacker/cbor/v2.RawTag).UnmarshalCBOR(&{github.com/fxamacker/cbor/v2.RawTag}, " + t.hmap + "[" + l + "])"
-		return []LP{A("+Has(" + t.hmap + ", " + l + ")"), A("+IsNil(" + raw + ")"), A("+Eq(" + raw + "!0.Number, 1)")}
+		// the tag object may be a literal (&cbor.RawTag{}) or a local (var t cbor.RawTag): any receiver
+		raw := "(*github.com/fxamacker/cbor/v2.RawTag).UnmarshalCBOR(*, " + t.hmap + "[" + l + "])"
+		return []LP{A("+Has(" + t.hmap + ", " + l + ")"), AG("+IsNil(" + raw + ")"), AnyOf(AG("+Eq("+raw+"!0.Number, 1)"), AG("+Eq(1, "+raw+"!0.Number)"))}
 	}
 	notTime := func(l string) LP {
 		return AnyOf(A("-TypeIs("+P+"["+l+"], time.Time)"), A("+TypeIs("+P+"["+l+"], github.com/fxamacker/cbor/v2.RawMessage)"))
